@@ -27,7 +27,7 @@ def plan(tier, seed):
     shards = []
     secs = 25 if quick else 300
     # time-bounded shards first, then many small finite shards: the pool keeps all workers busy
-    for g in ("cmd", "pe", "xorbytes", "matryoshka", "nesting", "seedmut", "reuse", "expand", "bom", "unicase", "codec") + (() if quick else ("soup",)):
+    for g in ("cmd", "pe", "xorbytes", "matryoshka", "nesting", "seedmut", "reuse", "expand", "bom", "unicase", "codec", "netmix") + (() if quick else ("soup",)):
         shards.append({"name": g, "gen": g, "seconds": secs})
     if not quick:
         shards.append({"name": "seedmut2", "gen": "seedmut", "seconds": secs})
